@@ -1,1 +1,43 @@
 // Kani contract harnesses for /repo/parquet/src/util/bit_pack.rs (child module: sees private items via super::)
+use super::*;
+#[path = "/verif/kani/support/spec.rs"]
+mod spec;
+use spec::*;
+
+// Contract (C05): unpackN(input, output, w) for every width w in 0..=N and every input of exactly the
+// required length w*N/8 bytes (precondition from the function's own `assert!(input.len() >= ...)`; the
+// caller BitReader::get_batch guarantees it): output[i] is the i-th w-bit group of the little-endian bit
+// stream — bit j of output[i] = stream bit i*w + j for j < w, and 0 for j >= w — i.e. exactly what the
+// naive one-bit-at-a-time extraction gives. Symbolic width (dispatch table included), symbolic
+// output index and bit index. The code is loop-free except the w = 0 zero-fill loop (N iterations).
+macro_rules! unpack_contract {
+    ($name:ident, $f:ident, $t:ty, $bits:expr) => {
+        #[kani::proof]
+        #[kani::unwind(66)]
+        fn $name() {
+            const BYTES: usize = $bits * $bits / 8;
+            let input: [u8; BYTES] = kani::any();
+            let w: usize = kani::any();
+            kani::assume(w <= $bits);
+            let mut out: [$t; $bits] = kani::any();
+            $f(&input[..w * $bits / 8], &mut out, w);
+            let i: usize = kani::any();
+            let j: usize = kani::any();
+            kani::assume(i < $bits && j < $bits);
+            let got = (out[i] >> j) & 1 == 1;
+            assert!(got == (j < w && bit(&input, i * w + j)));
+            kani::cover!(w == 0);
+            kani::cover!(w == $bits && got);
+            kani::cover!(w == 3 && i == $bits - 1 && j == 2 && got);
+            kani::cover!(w == $bits - 1 && i == 1 && j == 0 && got); // value straddles two words
+        }
+    };
+}
+// @unit name=unpack8_def props=C05 kind=complete fns=unpack8 timeout=240
+unpack_contract!(unpack8_def, unpack8, u8, 8);
+// @unit name=unpack16_def props=C05 kind=complete fns=unpack16 timeout=480 mem=3
+unpack_contract!(unpack16_def, unpack16, u16, 16);
+// @unit name=unpack32_def props=C05 kind=complete fns=unpack32 timeout=900 mem=4 tier=thorough
+unpack_contract!(unpack32_def, unpack32, u32, 32);
+// @unit name=unpack64_def props=C05 kind=complete fns=unpack64 timeout=900 mem=6 tier=thorough
+unpack_contract!(unpack64_def, unpack64, u64, 64);
